@@ -383,3 +383,8 @@ Proof.
   repeat (destruct H as [H|H]; [discriminate H|]). exact H.
 Qed.
 Print Assumptions C17_D37_prerepair_refuted.
+
+(* the generated facts this property uses were lifted from the current source *)
+Theorem C17_generated_facts_present : GEN_MERMAID_OK = true.
+Proof. reflexivity. Qed.
+Print Assumptions C17_generated_facts_present.
